@@ -48,12 +48,26 @@ def shard_main(argv):
     spec = json.loads(spec_json)
     res = {"shard": idx, "spec": spec}
     try:
+        if spec.get("kind") == "atheris":
+            # coverage feedback needs the package instrumented at import time, i.e. before anything else imports it
+            try:
+                import atheris
+
+                with atheris.instrument_imports(include=["jsonargparse"]):
+                    import jsonargparse  # noqa: F401
+            except ImportError as ex:  # not installed (setup_cmd could not): the shard falls back to plain generated search and says so
+                spec = dict(spec, kind="gen", note=f"atheris not importable ({ex}); plain Hypothesis search instead")
+                res["spec"] = spec
         assert_tree()
         mod = load_check(prop)
         ctx = Ctx(prop, tier, derive_seed(seed, prop, idx), idx)
         ctx.base_seed = seed
         if spec.get("kind") == "replays":
             run_replays(mod, ctx, res)
+        elif spec.get("kind") == "atheris":
+            ctx.result_file = out
+            ctx.res_base = res
+            mod.run_shard(spec, ctx)  # does not return: libFuzzer exits the process; results are flushed from inside
         else:
             mod.run_shard(spec, ctx)
         res.update(ctx.result())
